@@ -24,7 +24,7 @@ func VerifC16PayToAddressText() {
 	st, e2 := massutil.NewAddressStakingScriptHash(h, params)
 	rt.Assert(e1 == nil && e2 == nil, "addresses-from-hash")
 	stdText, stakingText := w0.EncodeAddress(), st.EncodeAddress()
-	switch rt.NondetLen(0, 3) {
+	switch rt.NondetLen(0, 4) {
 	case 0:
 		script, err := PayToWitnessV0Address(stdText, params)
 		rt.Assert(err == nil, "standard-address-accepted")
@@ -52,6 +52,30 @@ func VerifC16PayToAddressText() {
 			if perr == nil {
 				rt.Assert(info.IsStaking() && bytes.Equal(info.StdScriptAddress(), h) && info.Maturity() == uint64(frozen)+1, "reads-back-as-staking-output")
 				rt.Assert(info.SecondEncodeAddress() == stakingText && info.StdEncodeAddress() == stdText, "reads-back-to-the-same-addresses")
+			}
+		}
+	case 4:
+		// two staking outputs in one request, to the same address or to two addresses, each with its own period:
+		// every output carries its own period
+		h2 := h
+		if rt.NondetBool() {
+			h2 = rt.NondetBytes(32)
+		}
+		st2, e3 := massutil.NewAddressStakingScriptHash(h2, params)
+		rt.Assert(e3 == nil, "second-address-from-hash")
+		f1, f2 := rt.NondetU32(), rt.NondetU32()
+		mtx := wire.NewMsgTx()
+		amt, _ := massutil.NewAmountFromUint(5000)
+		err := constructStakingTxOut([]*StakingTxOut{{Address: stakingText, FrozenPeriod: f1, Amount: amt}, {Address: st2.EncodeAddress(), FrozenPeriod: f2, Amount: amt}}, mtx)
+		rt.Assert((err == nil) == (wire.IsValidFrozenPeriod(uint64(f1)) && wire.IsValidFrozenPeriod(uint64(f2))), "two-staking-outputs-built-iff-both-periods-valid")
+		if err == nil {
+			rt.Assert(len(mtx.TxOut) == 2, "two-outputs")
+			for i, want := range []struct {
+				h []byte
+				f uint32
+			}{{h, f1}, {h2, f2}} {
+				info, perr := utils.ParsePkScript(mtx.TxOut[i].PkScript, params)
+				rt.Assert(perr == nil && info.IsStaking() && bytes.Equal(info.StdScriptAddress(), want.h) && info.Maturity() == uint64(want.f)+1, "each-output-carries-its-own-address-and-period")
 			}
 		}
 	case 3:
